@@ -121,7 +121,7 @@ def specDiag (tbl : ClassTable) (s : SSig) (c : LCall) : Bool :=
 
 /-- third clause: every landed argument belongs to the declared type with the solution substituted -/
 def specAccepts (tbl : ClassTable) (sol : TvMap) (s : SSig) (c : LCall) : Bool :=
-  (cpyLand s c).all fun sl => landedOk tbl sl.got (subst sol sl.ann)
+  (cpyLand s c).all fun sl => landedOk tbl sl.got (applySol sol sl.ann)
 
 /-! ### template bodies (result clause) -/
 
@@ -151,24 +151,33 @@ def runTmpl (s : SSig) (c : LCall) : Tmpl → Option Obj
     | _ => none
   | .retConst k => some k
 
-/-- the declared type of the parameter named `p` as the body sees it -/
-def SSig.declTy (s : SSig) (p : String) : Option Ty :=
-  (s.asig.params.find? (·.name == p)).map AParam.ty
+/-- the declared type of the parameter as the body sees it (`*args: T` is a `tuple[T, ...]`,
+`**kw: T` a `dict[str, T]`) -/
+def Slot.declTy (sl : Slot) : Ty :=
+  match sl.got with
+  | .star _ => .generic C.tuple [sl.ann]
+  | .dstar _ => .generic C.dict [.typed C.str, sl.ann]
+  | _ => sl.ann
 
 def elemTy : Ty → Option Ty
   | .generic c [t] => if c == C.list || c == C.tuple then some t else none
   | _ => none
 
-/-- the return annotation that makes the template body well typed (for `retConst` any closed type
-containing the constant: supplied by the caller) -/
-def Tmpl.retTy (s : SSig) : Tmpl → Option Ty
-  | .retParam p => s.declTy p
-  | .retElem p => (s.declTy p).bind elemTy
+/-- the return annotation that makes the template body well typed (`retConst`: any type containing
+the constant, supplied by the caller) -/
+def Tmpl.retTy (s : SSig) (c : LCall) : Tmpl → Option Ty
+  | .retParam p => (findSlot (cpyLand s c) p).map Slot.declTy
+  | .retElem p => ((findSlot (cpyLand s c) p).map Slot.declTy).bind elemTy
   | .retConst _ => none
 
-/-- every default belongs to the declared type of its parameter (the function itself is well typed) -/
-def SSig.defaultsOk (tbl : ClassTable) (s : SSig) : Bool :=
-  (s.po ++ s.pk ++ s.ko).all fun p => match p.dflt with | some d => mem tbl d p.ann | none => true
+/-- every default that is actually used belongs to the declared type of its parameter (with the
+solution substituted): the function itself is well typed. pyanalyze reports an ill-typed default at
+the `def` (`incompatible_default`), never at the call. -/
+def usedDefaultsOk (tbl : ClassTable) (sol : TvMap) (s : SSig) (c : LCall) : Bool :=
+  (cpyLand s c).all fun sl =>
+    match sl.got, sl.dflt with
+    | .dflt, some d => mem tbl d (applySol sol sl.ann)
+    | _, _ => true
 
 /-! ### side conditions and exception classes -/
 
@@ -186,14 +195,14 @@ def eqLitsIn (tbl : ClassTable) (os : List Obj) (t : Ty) : Bool :=
 def D06_equalLiteralArgs (tbl : ClassTable) (sol : TvMap) (s : SSig) (c : LCall) : Bool :=
   (cpyLand s c).any fun sl =>
     match sl.got with
-    | .star os => eqLitsIn tbl os (subst sol sl.ann)
-    | .dstar kvs => eqLitsIn tbl (kvs.map (·.2)) (subst sol sl.ann)
+    | .star os => eqLitsIn tbl os (applySol sol sl.ann)
+    | .dstar kvs => eqLitsIn tbl (kvs.map (·.2)) (applySol sol sl.ann)
     | _ => false
 
 /-- the side conditions of the first clause: C03's hypotheses for every landed pair, and the call is
 outside `equalLiteralArgs` -/
 def sideOk (tbl : ClassTable) (sol : TvMap) (s : SSig) (c : LCall) : Bool :=
-  ((cpyLand s c).all fun sl => sl.got.objs.all fun o => pairOk tbl (subst sol sl.ann) o) &&
+  ((cpyLand s c).all fun sl => sl.got.objs.all fun o => pairOk tbl (applySol sol sl.ann) o) &&
   !D06_equalLiteralArgs tbl sol s c
 
 /-- the table facts the call model relies on beyond `tableOk` (checked for the live table by
@@ -206,7 +215,7 @@ def callTableOk (tbl : ClassTable) : Bool :=
 /-- the classes a call falls in, as printed by the driver (C03's classes are inherited: an argument
 or declared type in `variadicTuple` / `frozensetLiteral` / `protoClassObj` is that known class) -/
 def d06Classes (tbl : ClassTable) (sol : TvMap) (s : SSig) (c : LCall) : List String :=
-  let pairs := (cpyLand s c).flatMap fun sl => sl.got.objs.map fun o => (subst sol sl.ann, o)
+  let pairs := (cpyLand s c).flatMap fun sl => sl.got.objs.map fun o => (applySol sol sl.ann, o)
   (if pairs.any (fun p => p.1.hasMany) then ["variadicTuple"] else []) ++
   (if pairs.any (fun p => p.2.hasFset) then ["frozensetLiteral"] else []) ++
   (if pairs.any (fun p => protoClassObj tbl p.1 p.2) then ["protoClassObj"] else []) ++
